@@ -520,7 +520,9 @@ Definition P_C15 (c : acase) : bool :=
                else true
            | Some p, None =>
                (* created in this block: by a successful proposal transaction of this block *)
-               existsb (λ x : tx * res Z, succeeded x && (t_type x.1 =? TRX_PROPOSAL) && (t_hash x.1 =? hp.1)%N) (k_txs b)
+               (* ... sent by one of the validators of that moment: the voter table records exactly them *)
+               existsb (λ x : tx * res Z, succeeded x && (t_type x.1 =? TRX_PROPOSAL) && (t_hash x.1 =? hp.1)%N
+                                          && existsb (λ v : addr * Z * Z, (v.1.1 =? t_from x.1)%N) (pv_voters p)) (k_txs b)
                && negb (pv_frozen p) && (h <? pv_start p) && (pv_majority p =? (pv_total p * 2) `quot` 3)
                && (pv_total p =? foldr (λ v acc, v.1.2 + acc) 0 (pv_voters p))
            | None, Some p0 =>
